@@ -11,6 +11,7 @@ def run(rep):
     from . import control
     control.clause_deductive(rep, targets=['yp_generator.YPPrologCompiler.compile_expression', 'yp_generator.YPPrologCompiler.compile_list'])
     enginep.engine_deductive(rep, ['engine.Atom.unify', 'engine.unify', 'engine.Functor.unify', 'engine.get_value'], heap_lemmas=False)
+    enginep.topython_deductive(rep)
     q = rep.tier == 'quick'
     fw.standin(rep, 's_c16.py', ['run', rep.seed, 300 if q else 5000],
                'random literals (Unicode, quotes, newlines, nesting, list shapes) in fact/head/body/query position: to_python vs independent '
@@ -23,4 +24,4 @@ def run(rep):
                      'gets a new name x<counter+1> (visitVARIABLE); atoms unify by name (Atom.unify, C02) so they unify across engines; compile_expression/'
                      'compile_list emit cexpr(term) and L-LITERAL (induction) shows that these constructor calls build exactly the term the literal '
                      'denotes (tsem: atoms by name, integers, compound terms, [..] = nested ./2 ending in [], [H|T] = ./2); the token -> AST mapping '
-                     'of visitTerm/visitAtom and to_python are decided by the bounded stand-in')
+                     'of visitTerm/visitAtom is decided by the bounded stand-in; to_python is verified against topy (atoms to names, [] to the empty list, constants to themselves, proper lists to Python lists, other compound terms to (name, args), unbound variables to None)')
